@@ -287,9 +287,12 @@ NAMING = [
     [("indices", "List[int]", "[]"), ("indexes", "List[int]", "[]")],
     [("xs", "List[int]", "[]"), ("x", "int", "0"), ("xs_item", "List[int]", "[]")],
     [("value", "int", "0"), ("values", "List[int]", "[]"), ("value_item", "int", "0")],
+    # the `<attr>_item` fallback of one collection is the singular of ANOTHER collection
+    [("menu_items", "List[str]", "[]"), ("menu", "Dict[str, int]", "{}")],
+    [("item", "int", "0"), ("items_items", "List[int]", "[]"), ("items", "List[int]", "[]")],
 ]
 NAMING_SAMPLES = {"people": "w", "persons": "w", "data": 3, "sheep": 3, "children": 3, "scores": 1, "tags": 3, "boxes": 3, "box": 3,
-                  "items": 3, "indices": 3, "indexes": 3, "xs": 3, "xs_item": 3, "values": 3}
+                  "items": 3, "indices": 3, "indexes": 3, "xs": 3, "xs_item": 3, "values": 3, "menu_items": "w", "menu": 1, "items_items": 3}
 
 
 def is_coll(ann):
@@ -445,6 +448,10 @@ def selection_worker(task):
         configs.append(({"init": init, "repr": repr_, "eq": eq}, [("a", False), ("b", True)]))
     configs += [
         ({"attrs": ["u"]}, [("u", False)]),
+        # nominating an ANNOTATED collection by name keeps its annotation (and with it the element helpers)
+        ({"attrs": ["b"]}, [("b", True)]),
+        ({"attrs": ["a", "b"]}, [("a", False), ("b", True)]),
+        ({"attrs": ["b", "u"]}, [("b", True), ("u", False)]),
         ({"attrs": ["u"], "attrs_skip": []}, [("a", False), ("b", True), ("u", False)]),
         ({"attrs_typed": {"w": "List[int]"}}, [("w", True)]),
         ({"attrs_typed": {"w": "List[int]"}, "attrs_skip": ["a"]}, [("b", True), ("w", True)]),
